@@ -4,6 +4,11 @@
 // handler calls that happened: verdict, and for a SeqNumberAttr the attribute value right after it.
 // A message may name the harness thread (0 = main, 1..3 = persistent workers) that constructs and sends it;
 // execution stays sequential.  Line protocol: see ocaml/drv_filters.ml.  mode "level": "<min> <type>" -> verdict of LevelFilter(min).
+// A lower-case object kind (o:d, o:n, o:v<t>, o:r<ast>~<hex>) obtains the handler through the FLUENT API instead of
+// constructing the class: SimplePipeline::filterDuplicate() / addSeqNumber(name) / filterLevel(t) / filter(regexp) is
+// called on a scratch SimplePipeline and the object of the scenario is "whatever that call installed" (the handlers the
+// scratch pipeline then holds, run in order, stopping at the first that says no).  mode "flevel": "<min> <type>" ->
+// verdict of what SimplePipeline::filterLevel(min) installed.
 #ifdef VERIF_HEADER_ONLY
 #include "qtlogger.h"
 #else
@@ -29,6 +34,17 @@ struct FmtTag : Formatter {
 struct Drop : Filter {
     int bit; explicit Drop(int b) : bit(b) {}
     bool filter(const LogMessage &m) override { return !((m.line() >> bit) & 1); }
+};
+// what a fluent SimplePipeline call installed, as one handler object of the scenario
+struct Fluent : Handler {
+    SimplePipelinePtr sp;
+    explicit Fluent(const SimplePipelinePtr &p) : sp(p) {}
+    bool process(LogMessage &m) override
+    {
+        const QList<HandlerPtr> hs = static_cast<const Pipeline &>(*sp).handlers();
+        for (const auto &h : hs) if (h && !h->process(m)) return false;
+        return true;
+    }
 };
 struct Rec { std::vector<std::string> calls; };
 // placed after handler number k of a pipeline: being reached means that handler returned true
@@ -106,6 +122,14 @@ int main(int argc, char **argv)
             std::cout << (f.filter(m) ? "1" : "0") << "\n";
             continue;
         }
+        if (mode == "flevel") {
+            int a = 0, b = 0; std::istringstream(line) >> a >> b;
+            auto sp = SimplePipelinePtr::create(); sp->filterLevel(mt(a));
+            Fluent f(sp);
+            LogMessage m(mt(b), QMessageLogContext("f.cpp", 1, "fn", "cat"), QStringLiteral("x"));
+            std::cout << (f.process(m) ? "1" : "0") << "\n";
+            continue;
+        }
         std::vector<HandlerPtr> objs; std::vector<int> isSeq; std::vector<size_t> plen;
         std::vector<PipelinePtr> pipes; std::vector<std::vector<int>> pidx;
         Rec rec; std::ostringstream out;
@@ -114,7 +138,12 @@ int main(int argc, char **argv)
             std::string body = tok.substr(2);
             if (tok[0] == 'o') {
                 int k = static_cast<int>(objs.size()); int seq = 0; HandlerPtr h;
+                auto sp = SimplePipelinePtr::create();
                 switch (body[0]) {
+                case 'd': sp->filterDuplicate(); h = QSharedPointer<Fluent>::create(sp); break;
+                case 'n': sp->addSeqNumber(QStringLiteral("s%1").arg(k)); h = QSharedPointer<Fluent>::create(sp); seq = 1; break;
+                case 'v': sp->filterLevel(mt(std::stoi(body.substr(1)))); h = QSharedPointer<Fluent>::create(sp); break;
+                case 'r': sp->filter(bytesOf(body.substr(body.find('~') + 1))); h = QSharedPointer<Fluent>::create(sp); break;
                 case 'D': h = DuplicateFilterPtr::create(); break;
                 case 'N': h = SeqNumberAttrPtr::create(QStringLiteral("s%1").arg(k)); seq = 1; break;
                 case 'V': h = LevelFilterPtr::create(mt(std::stoi(body.substr(1)))); break;
@@ -160,7 +189,14 @@ int main(int argc, char **argv)
                     HandlerPtr h = p < objs.size() ? objs[p] : HandlerPtr();
                     if (!h) return;
                     n = 1;
-                    if (auto a = h.dynamicCast<AttrHandler>()) {
+                    if (auto fw = h.dynamicCast<Fluent>()) {
+                        // a fluently installed object has no other public entry point than process()
+                        if (fw->process(m)) {
+                            if (!isSeq[p]) { rec.calls.push_back("1"); return; }
+                            QVariant v = m.attribute(QStringLiteral("s%1").arg(p));
+                            rec.calls.push_back("1=" + (v.isValid() && v.type() == QVariant::Int ? std::to_string(v.toInt()) : std::string("?")));
+                        }
+                    } else if (auto a = h.dynamicCast<AttrHandler>()) {
                         const QVariantHash r = a->attributes(m);
                         QVariant v = r.value(QStringLiteral("s%1").arg(p));
                         rec.calls.push_back("1=" + (v.isValid() && v.type() == QVariant::Int ? std::to_string(v.toInt()) : std::string("?")));
